@@ -83,13 +83,53 @@ impl Rpc {
     }
 }
 
+/// Verification hook (feature `breez_trampoline_verif` only): lets a checker
+/// register an in-process node for an `rpc_file`. With nothing registered the
+/// real socket is used.
+#[cfg(feature = "breez_trampoline_verif")]
+pub mod verif_hook {
+    use std::{
+        collections::HashMap,
+        sync::{Arc, Mutex, OnceLock},
+    };
+
+    use super::ClnRpc;
+
+    type Node = Arc<dyn ClnRpc + Send + Sync>;
+
+    fn registry() -> &'static Mutex<HashMap<String, Node>> {
+        static REGISTRY: OnceLock<Mutex<HashMap<String, Node>>> = OnceLock::new();
+        REGISTRY.get_or_init(|| Mutex::new(HashMap::new()))
+    }
+
+    pub fn register(rpc_file: &str, node: Node) {
+        registry().lock().unwrap().insert(rpc_file.to_string(), node);
+    }
+
+    pub fn unregister(rpc_file: &str) {
+        registry().lock().unwrap().remove(rpc_file);
+    }
+
+    pub fn lookup(rpc_file: &str) -> Option<Node> {
+        registry().lock().unwrap().get(rpc_file).cloned()
+    }
+}
+
 #[async_trait]
 impl ClnRpc for Rpc {
     async fn datastore(&self, request: &DatastoreRequest) -> Result<DatastoreResponse, RpcError> {
+        #[cfg(feature = "breez_trampoline_verif")]
+        if let Some(node) = verif_hook::lookup(&self.rpc_file) {
+            return node.datastore(request).await;
+        }
         Ok(self.rpc().await?.call_typed(request).await?)
     }
 
     async fn get_info(&self) -> Result<GetinfoResponse, RpcError> {
+        #[cfg(feature = "breez_trampoline_verif")]
+        if let Some(node) = verif_hook::lookup(&self.rpc_file) {
+            return node.get_info().await;
+        }
         Ok(self.rpc().await?.call_typed(&GetinfoRequest {}).await?)
     }
 
@@ -97,6 +137,10 @@ impl ClnRpc for Rpc {
         &self,
         request: &ListdatastoreRequest,
     ) -> Result<ListdatastoreResponse, RpcError> {
+        #[cfg(feature = "breez_trampoline_verif")]
+        if let Some(node) = verif_hook::lookup(&self.rpc_file) {
+            return node.listdatastore(request).await;
+        }
         Ok(self.rpc().await?.call_typed(request).await?)
     }
 
@@ -104,10 +148,18 @@ impl ClnRpc for Rpc {
         &self,
         request: &ListsendpaysRequest,
     ) -> Result<ListsendpaysResponse, RpcError> {
+        #[cfg(feature = "breez_trampoline_verif")]
+        if let Some(node) = verif_hook::lookup(&self.rpc_file) {
+            return node.listsendpays(request).await;
+        }
         Ok(self.rpc().await?.call_typed(request).await?)
     }
 
     async fn pay(&self, request: &PayRequest) -> Result<PayResponse, RpcError> {
+        #[cfg(feature = "breez_trampoline_verif")]
+        if let Some(node) = verif_hook::lookup(&self.rpc_file) {
+            return node.pay(request).await;
+        }
         Ok(self.rpc().await?.call_typed(request).await?)
     }
 
@@ -115,6 +167,10 @@ impl ClnRpc for Rpc {
         &self,
         request: WaitsendpayRequest,
     ) -> Result<WaitsendpayResponse, RpcError> {
+        #[cfg(feature = "breez_trampoline_verif")]
+        if let Some(node) = verif_hook::lookup(&self.rpc_file) {
+            return node.waitsendpay(request).await;
+        }
         Ok(self.rpc().await?.call_typed(&request).await?)
     }
 }
